@@ -78,7 +78,7 @@ SHAPED = {  # (type, template): 'd' = any digit, other characters literal or fro
                             'dddd-dd-ddTdd:dd:dd+dd:dd', 'dddd-dd-ddTdd:dd:dd-dd:dd', 'dddd-dd-dd dd:dd:dd',
                             'dddd-dd-ddTdd:dd']),
     'Time': (Time, ['dd:dd:dd', 'dd:dd:dd.dddddd', 'dd:dd:dd.ddddddd', 'dd:dd']),
-    'Duration': (Duration, ['PdDTdHdMd.dS', 'PTd.ddddddddS', '-PdYdMdD', 'PTdxdS', 'P', 'PdddddddddddD', 'PddddddddddY',
+    'Duration': (Duration, ['PdDTdHdMd.dS', 'PTd.ddddddddS', '-PdYdMdD', 'PTdxdS', 'P', 'PdddddddddddD', 'PddddddddddY', '-PdddddddddDTddHddMddS',
                             'PTddddddddddddH']),
 }
 
